@@ -188,6 +188,21 @@ var registry = map[string]propDef{
 	"C20s": {"other", props.PackShifts},
 	"C15h": {"other", props.PackShifts},
 	"C15x": {"other", props.WordExact},
+	"C02a": {"other", props.CallerSlices},
+	"C01h": {"other", props.C17handle},
+	"C02h": {"other", props.C17handle},
+	"C18k": {"other", props.C06kdf},
+	"C18q": {"other", props.CallerSlices},
+	"C02p": {"other", props.C06pack},
+	"C02g": {"other", props.C06geom},
+	"C02q": {"other", props.C06prg},
+	"C02j": {"other", props.PackShifts},
+	"C06a": {"other", props.CallerSlices},
+	"C04a": {"other", props.CallerSlices},
+	"C15a": {"other", props.CallerSlices},
+	"C20c": {"other", props.CallerSlices},
+	"C03f": {"other", props.C05dispatch},
+	"C03h": {"other", props.C07prefix},
 	"C06x": {"other", props.WordExact},
 	"C01x": {"other", props.WordExact},
 	"C06r": {"other", props.C06rounding},
